@@ -21,6 +21,7 @@ Inductive stop :=
 | SReopen (crash : Z) (listing : list (Z * (Z * Z * Z * Z))) (err : Z)
 | SObserve (segs : list (Z * Z)) (nmem : Z)
 | SHolders (gap : Z)     (* during the preceding Flush: min over its hook points of (#queued memtables + #registered segments) minus the value at its start *)
+| SCompactFiles (lost : Z)  (* during the preceding compaction: segment files that existed at its start and were gone before the merged segment was registered *)
 | SInFlight (compact : bool).
 
 Definition pfst4 : P (Z * Z * Z * Z) := a <- pz ;; b <- pz ;; c <- pz ;; d <- pz ;; ret (a, b, c, d).
@@ -39,6 +40,7 @@ Definition pstop : P stop :=
   else if t =? 9 then (c <- pz ;; l <- plist (ppair pz pfst4) ;; e <- pz ;; ret (SReopen c l e))
   else if t =? 10 then (sg <- ppairs ;; n <- pz ;; ret (SObserve sg n))
   else if t =? 12 then (g <- pz ;; ret (SHolders g))
+  else if t =? 13 then (g <- pz ;; ret (SCompactFiles g))
   else if t =? 11 then (c <- pbool ;; ret (SInFlight c))
   else (fun _ => None).
 
@@ -194,6 +196,10 @@ Definition ststep (h : sth) (o : stop) : sth + list Z :=
       (* no instant of a flush at which an acknowledged memtable is neither queued nor registered as a
          segment (a concurrent search would miss its documents; a failing flush would lose them) *)
       if gap <? 0 then inr (v_violation [sh_i h; -12; gap]) else inl (upd_model h s)
+  | SCompactFiles lost =>
+      (* the input segments' files must outlive the registration of the merged segment: a crash in
+         between would otherwise leave neither *)
+      if 0 <? lost then inr (v_violation [sh_i h; -13; lost]) else inl (upd_model h s)
   | SObserve segs nmem =>
       let ms := map (fun g => (sg_id g, if sg_cached g then 1 else 0)) (s_segs s) in
       if plist_eqb ms segs && (nmem =? Z.of_nat (length (s_queue s))) then inl (upd_model h s)
